@@ -129,6 +129,27 @@ def item_configs(pipes):
                         if not k.startswith("_") and k not in ("processing_item",)})
     return out
 
+def class_dicts(classes):
+    """every mutable class attribute (dict / list / set) of the backend classes and their bases, as text; pipelines and
+    the per-format pipeline table (a defaultdict that grows on lookup) are looked at separately"""
+    out = {}
+    seen = set()
+    for c in classes:
+        for k in c.__mro__:
+            if k in seen or k is object: continue
+            seen.add(k)
+            for name, v in vars(k).items():
+                if name in ("output_format_processing_pipeline", "__dict__", "__annotations__", "__abstractmethods__", "_abc_impl"): continue
+                if isinstance(v, (dict, list, set)):
+                    out[k.__name__ + "." + name] = v
+    return repr(_canon(out))
+
+def _canon(v):
+    if isinstance(v, dict): return sorted((repr(k), _canon(x)) for k, x in v.items())
+    if isinstance(v, (list, tuple)): return [_canon(x) for x in v]
+    if isinstance(v, (set, frozenset)): return sorted(repr(x) for x in v)
+    return repr(v)
+
 def make_class(k, cdef):
     """a new backend class object per case (class attributes are part of the state under test)"""
     attrs = {
@@ -140,6 +161,10 @@ def make_class(k, cdef):
             ProcessingPipeline, **{FMT[int(f)]: make_pipeline({"items": cdef["fmt"].get(f, []), "vars": cdef.get("fmtvars", {}).get(f, {})})
                                    for f in set(cdef["fmt"]) | set(cdef.get("fmtvars", {}))}),
     }
+    if cdef.get("qexpr"):
+        attrs["query_expression"] = "idx={state[" + cdef["qexpr"] + "]} | {query}"
+    if "sdef" in cdef:
+        attrs["state_defaults"] = dict(cdef["sdef"])      # the class's own dict; otherwise the one of TextQueryBackend is inherited
     if cdef["ne"]:
         attrs.update({"convert_not_as_not_eq": True, "not_eq_token": "!=",
                       "not_startswith_expression": "{field} not_startswith {value}"})
@@ -210,6 +235,7 @@ class World:
             pipes += list(c.output_format_processing_pipeline.values())
         self.src_vars = [(p, copy.deepcopy(p.vars)) for p in pipes]
         self.pipes = pipes
+        self.cls0 = class_dicts(self.classes)
         self.cfg0 = _plain(item_configs(pipes))     # a string: nothing is shared with the objects
 
     def load(self, r):
@@ -222,7 +248,9 @@ class World:
         # vars of the pipeline definitions' own objects must never change (only the merged copy is updated)
         src_vars_ok = (all(_plain(p.vars) == _plain(v) for p, v in self.src_vars)
                        # ... nor the configuration of any transformation object (set_field list, mappings, values ...)
-                       and _plain(item_configs(self.pipes)) == self.cfg0)
+                       and _plain(item_configs(self.pipes)) == self.cfg0
+                       # ... nor any class-level dict / list of the backend classes (state_defaults, formats, ...)
+                       and class_dicts(self.classes) == self.cls0)
         for p in self.users:       # file_placeholders objects of the user pipeline objects, in order
             for it in p.items:
                 if isinstance(it.transformation, ExternalSourceBaseTransformation):
